@@ -200,6 +200,14 @@ func (c *Conn) handleClientHello(record []byte, isRetry bool) (outer, inner *cli
 	if inner, err = c.processEncryptedClientHello(outer, isRetry); err != nil && err != errNoMatch {
 		return nil, nil, err
 	}
+	if inner != nil && len(record) >= 9 {
+		// A ClientHello ends on a record boundary (RFC 8446, Section 5.1).
+		// Whatever follows it in its record would be lost when the hello is
+		// replaced by the inner one.
+		if length := int(record[6])<<16 | int(record[7])<<8 | int(record[8]); len(record)-9 > length {
+			return nil, nil, fmt.Errorf("%w: data after the ClientHello in its record", ErrUnexpectedMessage)
+		}
+	}
 	if isRetry {
 		if inner == nil || inner.echExt == nil || c.inner.ServerName != inner.ServerName || !slices.Equal(c.inner.ALPNProtos, inner.ALPNProtos) {
 			return nil, nil, fmt.Errorf("%w: second client_hello mismatch", ErrIllegalParameter)
